@@ -160,7 +160,9 @@ void shift_left(T *first, SizeType n) noexcept {
 /// Erase 'n' elements starting at 'first', shifting the next 'count' elements to memory starting at 'first'
 template <class T, class SizeType, typename std::enable_if<!amc::is_trivially_relocatable<T>::value, bool>::type = true>
 inline void erase_n(T *first, SizeType n, SizeType count) {
-  amc::destroy_n(std::move(first + n, first + n + count, first), n);
+  if (n != 0) {  // nothing to do for an empty range (and avoid move assignment of each element onto itself)
+    amc::destroy_n(std::move(first + n, first + n + count, first), n);
+  }
 }
 template <class T, class SizeType, typename std::enable_if<amc::is_trivially_relocatable<T>::value, bool>::type = true>
 inline void erase_n(T *first, SizeType n, SizeType count) {
